@@ -24,6 +24,7 @@ type vChaosBroker struct {
 	failUnsub    bool // Unsubscribe may fail (Choose)
 	subFailures  int
 	publishCalls int
+	historyDelay int64 // virtual time a History call takes to answer (0: at once)
 }
 
 type vBrokerEvent struct {
@@ -123,6 +124,10 @@ func (b *vChaosBroker) PublishLeave(ch string, info *ClientInfo) error {
 	return b.inner.PublishLeave(ch, info)
 }
 func (b *vChaosBroker) History(ch string, opts HistoryOptions) ([]*Publication, StreamPosition, error) {
-	return b.inner.History(ch, opts)
+	pubs, sp, err := b.inner.History(ch, opts)
+	if b.historyDelay > 0 {
+		vsched.Sleep(b.historyDelay) // the broker answers late: the result is as of the time of the read
+	}
+	return pubs, sp, err
 }
 func (b *vChaosBroker) RemoveHistory(ch string) error { return b.inner.RemoveHistory(ch) }
